@@ -26,7 +26,10 @@ package tree
 //@   nopanic[C01]
 
 //@ func (Path).Next
-//@   nopanic[C01]
+//@   nopanic[C01,C04]
+//@   ensures[C04] p == "" ==> result == part
 
 //@ func NewPath
-//@   nopanic[C01]
+//@   nopanic[C01,C04]
+//@   ensures[C04] len(items) == 0 ==> result == ""
+//@   ensures[C04] len(items) == 1 ==> result == items[0]
